@@ -200,7 +200,9 @@ Lemma add_preserves b done a b' :
   binv b done -> time_ok (o_time a) -> run_op (OAdd a) b = Ok b' ->
   exists s, binv b' (done ++ [mkEntry a s (b_barrier b)]) /\ s_id s = b_next b /\
             entry_ok (done ++ [mkEntry a s (b_barrier b)]) (mkEntry a s (b_barrier b)) /\
-            stages_ext (b_stages b) (b_stages b') /\ b_barrier b' = b_barrier b /\ b_tl b' = b_tl b.
+            stages_ext (b_stages b) (b_stages b') /\ b_barrier b' = b_barrier b /\ b_tl b' = b_tl b /\
+            sb_insert (b_barrier b) (b_stages b) s = Ok (b_stages b') /\
+            (forall d, In d (s_deps s) -> located (b_stages b) d).
 Proof.
   intros I Ht H. apply add_inv in H. destruct H as (ids & names' & stages' & Hres & Hnm & Hins & ->).
   set (s := new_sys b a ids) in *. exists s.
@@ -218,7 +220,7 @@ Proof.
   assert (Hext : stages_ext (b_stages b) stages') by (eapply sb_insert_ext; eauto).
   assert (Heok : entry_ok (done ++ [e]) e).
   { constructor; cbn; auto. eapply Forall2_impl; [|exact Hres2]. intros n d. apply dep_resolved_mono. }
-  split; [|split; [reflexivity|split; [exact Heok|split; [exact Hext|split; reflexivity]]]].
+  split; [|split; [reflexivity|split; [exact Heok|split; [exact Hext|split; [reflexivity|split; [reflexivity|split; [exact Hins|exact Hdloc]]]]]]].
   constructor; cbn [b_stages b_next b_names b_barrier b_tl].
   - eapply sb_insert_ok; eauto.
   - etransitivity; [eapply sb_insert_members; eauto|].
